@@ -186,6 +186,110 @@ c10_stream_entries!(c10_stream_entries_p2_p1, 2, 1, false, 8);
 // @h prop=C10,C09 tier=dev t=3000 mem=10 name=c10_stream_entries_short_reads
 c10_stream_entries!(c10_stream_entries_short_reads, 1, 1, true, 8);
 
+macro_rules! c10_stream_one {
+    ($name:ident, $p:expr, $cons:expr, $unwind:expr) => {
+        #[kani::proof]
+        #[kani::unwind($unwind)]
+        #[kani::stub(crc32fast::Hasher::internal_new_specialized, crate::verif_kit::stub_crc_specialized)]
+        fn $name() {
+            const P: usize = $p;
+            const CONS: usize = $cons; // how many 1-byte reads the consumer issues before moving on
+            const N: usize = 64;
+            let pay: [u8; P] = kani::any();
+            let name: [u8; 1] = kani::any();
+            let mut v = EntryVals::any();
+            v.flags &= 1 << 11;
+            v.method = 0;
+            v.csize = P as u32;
+            v.usize_ = P as u32;
+            v.crc = ref_crc32(&pay, P);
+            let mut b = [0u8; N];
+            let mut p = put_local(&mut b, 0, &v, v.crc, v.csize, v.usize_, &name, &[]);
+            let mut i = 0;
+            while i < P {
+                b[p + i] = pay[i];
+                i += 1;
+            }
+            p += P;
+            let next = p;
+            // what follows the entry: the first central directory record's signature
+            put32(&mut b, p, SIG_CENTRAL);
+            let mut src = Src::<N>::new(b, p + 4);
+            match read_zipfile_from_stream(&mut src) {
+                Ok(Some(mut f)) => {
+                    let utf8 = v.flags & (1 << 11) != 0;
+                    {
+                        let mut it = f.name().chars();
+                        assert_eq!(it.next(), Some(s_ref_name1(name[0], utf8)));
+                        assert!(it.next().is_none());
+                    }
+                    assert_eq!(f.name_raw()[0], name[0]);
+                    assert_eq!(f.size(), P as u64);
+                    assert_eq!(f.compressed_size(), P as u64);
+                    assert!(f.compression() == CompressionMethod::Stored);
+                    assert_eq!(f.crc32(), v.crc);
+                    assert_eq!(f.last_modified().datepart(), v.date);
+                    assert_eq!(f.last_modified().timepart(), v.time);
+                    let mut n = 0;
+                    while n < CONS {
+                        let mut one = [0u8; 1];
+                        match f.read(&mut one) {
+                            Ok(m) => {
+                                if n < P {
+                                    assert_eq!(m, 1);
+                                    assert_eq!(one[0], pay[n]);
+                                } else {
+                                    assert_eq!(m, 0);
+                                }
+                            }
+                            Err(e) => {
+                                core::mem::forget(e);
+                                assert!(false, "read of a well-formed streamed entry failed");
+                            }
+                        }
+                        n += 1;
+                    }
+                    // releasing the entry (Drop) drains what the consumer left unread
+                }
+                Ok(None) => {
+                    assert!(false, "entry not reported");
+                }
+                Err(e) => {
+                    core::mem::forget(e);
+                    assert!(false, "well-formed local header rejected by the streaming reader");
+                }
+            }
+            assert_eq!(src.pos, next, "stream not positioned at the next record after releasing the entry");
+            // the central directory signals the end of entries
+            match read_zipfile_from_stream(&mut src) {
+                Ok(None) => {}
+                Ok(Some(f)) => {
+                    core::mem::forget(f);
+                    assert!(false, "entry reported past the last one");
+                }
+                Err(e) => {
+                    core::mem::forget(e);
+                    assert!(false, "error instead of end-of-entries");
+                }
+            }
+            kani::cover!(true);
+        }
+    };
+}
+/// C10 streaming reader, one stored entry from the independent builder (all header values
+/// symbolic: times, made-by, attributes, UTF-8 flag, 1-byte name; 2-byte payload with its
+/// reference CRC) followed by the central directory: name/size/method/time/CRC as built; the
+/// consumer reads NOTHING before releasing the entry; the drop-time drain leaves the stream
+/// exactly at the next record, where the central signature yields end-of-entries (None).
+// @h prop=C10,C04 tier=dev t=600 mem=10 name=c10_stream_one_p2_read0 uws="fn:^std::ptr::drop_glue::<std::io::Error>$:2"
+c10_stream_one!(c10_stream_one_p2_read0, 2, 0, 6);
+/// C10 as above, the consumer reads 1 of the 2 bytes (partial consumption) before moving on.
+// @h prop=C10,C04 tier=dev t=600 mem=10 name=c10_stream_one_p2_read1 uws="fn:^std::ptr::drop_glue::<std::io::Error>$:2"
+c10_stream_one!(c10_stream_one_p2_read1, 2, 1, 6);
+/// C10 as above, the consumer reads to end-of-file (2 bytes and the final 0, CRC gate passes).
+// @h prop=C10,C04 tier=dev t=600 mem=10 name=c10_stream_one_p2_read3 uws="fn:^std::ptr::drop_glue::<std::io::Error>$:2"
+c10_stream_one!(c10_stream_one_p2_read3, 2, 3, 6);
+
 /// visitor that records what it was given
 struct RecV {
     files: usize,
